@@ -13,7 +13,7 @@ T={
         "Decides the arithmetic shape of every branch form; not that pass-1 leaves the target where the emitter assumes it."),
  "C05":("lockstep rule (size advanced = bytes the emitter appends per element), little-endian lane order of DB/DW/DD emitters, RESB value flow, ALIGNB basis agreement",
         "Decides per-clause structure of the data directives on both sides of the text hand-off."),
- "C06":("PEG grammar extraction from the generated parser + derived attributes (precedence layering, operator sets, tuple slots read by actions); operator table of the evaluator",
+ "C06":("PEG grammar extraction from the generated parser + derived attributes (precedence layering, operator sets, tuple slots read by actions); operator table, reduced-flag protocol and serialisers of the evaluator; canonical range tables",
         "Decides precedence/associativity structure and the operator→Go-operator table; not 64-bit overflow semantics."),
  "C07":("dominator analysis on go/ssa: every return of every handler is preceded by Emit, delegation or a diagnostic whose header the log backend classifies >= warning (header table read from the colog source and the CLI's AddHeader calls); Emit error discipline",
         "Decides that no handler path can finish silently; the diagnostic level is decided from colog's own table."),
@@ -27,7 +27,7 @@ T={
         "Decides the substitution mechanism; not equivalence with textual inlining for bodies containing `$`."),
  "C12":("derived attributes of the extracted PEG: whitespace/comment alphabets, nullability, statement wrappers, separator padding, comment reachability, string-body exclusions",
         "Decides the layout attributes of the grammar; not language equivalence under re-layout."),
- "C13":("reachability of explicit crash primitives (panic, log.Fatal, os.Exit) from the entry points on the VTA call graph; generated parsers keep panic recovery on",
+ "C13":("reachability of explicit crash primitives (panic, log.Fatal, os.Exit, Must helpers) from the entry points on the VTA call graph; per-site proofs on go/ssa (edge dominance with no-return blocks) for every index, slice expression, forced type assertion, integer division and allocation size of gosk's own code; recursion attributes of the evaluator (EQU table) and of the extracted grammar (bracket nesting); generated parsers keep panic recovery on",
         "Decides, for gosk's own non-generated code: explicit crash sites, every index and slice expression, forced type assertions, integer divisions, computed and input-sized make lengths, Must-style helpers, recursion through the EQU table and bracket nesting in the grammar. Nil dereferences, panics inside the generated parsers / third-party modules and the complexity clause are not decided (no sound tool in reach)."),
  "C14":("phase/effect analysis: scalar context fields read at emission are not written during traversal; no package-level writes after init; ocode list append-only, emission loop unconditional and forward",
         "Decides the channels through which one statement can influence another's bytes."),
@@ -39,7 +39,7 @@ T={
         "Decides defaults and the scoping mechanism; the known scoping defect is reported as a known finding."),
  "C18":("comparator orientation and tie-break order of the encoding selection, sign-extendable mnemonic set vs ISA group 1, canonical signed-8 intervals, shared matchAnyImm flag between sizing and emission",
         "Decides the selection machinery's structure; not minimality for every operand combination."),
- "C19":("exit-code table extracted from guarded os.Exit sites vs the CLI contract; open flags; no failing exit after a successful write; single image write after pass 2",
+ "C19":("exit-code table extracted from guarded os.Exit sites vs the CLI contract; open flags; output creation dominates both writers; no failing exit after a successful write; single image write after pass 2; backward slice of the text and the options handed to the parser by the command (decoded on every path, not rewritten, no limiting options)",
         "Decides exit statuses and output discipline; not the Shift_JIS/UTF-8 decoding clause (third-party decoder behaviour)."),
 }
 import subprocess
